@@ -21,7 +21,7 @@ PARTIAL = ["the text -> elements step (lexer, parser, transformer walk: 'all dig
            "irrelevance) is modelled and exercised by the correspondence on every run but has no parse/render theorem yet"]
 RULE = ("grammar-derived xpaths (1-4 steps, every anywhere/field/index/class combination, indices 0-13 and "
         "multi-digit/zero-padded, empty index, field names child/root/items, subclass hierarchies, random "
-        "whitespace between tokens) x seeded zoo trees without repeated objects (tuples up to length 14); every "
+        "whitespace between tokens) x seeded zoo trees without repeated objects (tuples up to length 14; 35% contain whole duplicated subtrees, i.e. pairwise == twins under == parents); every "
         "node of the tree is a match() argument; 70% of the xpaths are spelled from the chain of a random position (so they mostly match); non-trivial = tree has >= 3 nodes, the text parses and findall is non-empty; distinct "
         "by (text, tree)")
 TRUSTED = ["lark LALR engine + contextual lexer are re-modelled by a hand-written lexer/recursive-descent parser",
@@ -189,6 +189,10 @@ def cases(rng: random.Random, tier: str):
     for _ in range(n_trees):
         g = zoo.Gen(rng, origins=False, share=0.0)
         root = g.tree(rng.choice([1, 3, 6, 10, 20, 40]))
+        if rng.random() < 0.35:
+            # content-identical (and origin-identical) twins under content-identical parents, at the same
+            # field and index: distinct objects that are `==` pairwise
+            root = zoo.Tup((root, root.duplicate()) + ((root.duplicate(),) if rng.random() < 0.3 else ()))
         toks = zoo.Tokens()
         orgs = zoo.OrgTable()
         tree = zoo.enc_tree(root, toks, orgs)
